@@ -18,7 +18,7 @@ LEVEL = "exploration"
 BUDGET = {"quick": (2500, 35), "thorough": (600_000, 540)}
 RULE = ("scripts of 2-10 operations (service publishes configuration i with a new hash; register / unregister in "
         "code; next poll answers with RPC error / 0.5-12 s delay / garbage bytes / a response with one "
-        "uninterpretable tracepoint; sleeps of 0-25 s) x worker stalls x seeded schedules with a pre-emption point at "
+        "uninterpretable tracepoint; sleeps of 0-25 s) x an application thread running through the probed lines meanwhile x worker stalls x seeded schedules with a pre-emption point at "
         "every line of the configuration/task/poll code x targeted switches (registration exactly at a poll); then 3 "
         "fault-free poll intervals and a probe; non-trivial = at least two configuration updates or an update plus a "
         "registration were applied; distinct = distinct (script, final outcome, thread order) keys")
@@ -65,7 +65,7 @@ def generate(seed, tier):
         else:
             ops.append({"op": "sleep", "s": r.choice((0.0, 0.5, 4.0, 9.99, 10.0, 10.01, 25.0))})
     knobs = common.draw_knobs(r, stall_p=r.choice((0.0, 0.0005, 0.003)), stall_ns=[10_000_000, 2_000_000_000])
-    return {"ops": ops, "line_level": r.random() < 0.7, "knobs": knobs}
+    return {"ops": ops, "line_level": r.random() < 0.7, "prober": r.random() < 0.5, "knobs": knobs}
 
 
 def shrink_candidates(s):
@@ -80,6 +80,8 @@ def shrink_candidates(s):
             yield dict(s, ops=ops)
     if s["line_level"]:
         yield dict(s, line_level=False)
+    if s.get("prober"):
+        yield dict(s, prober=False)
 
 
 def execute(s, ch):
@@ -132,11 +134,46 @@ def execute(s, ch):
             src = seams.SRC
             tracer = linetrace.LineTracer(k, (os.path.join(src, "deep/config"), os.path.join(src, "deep/task"),
                                               os.path.join(src, "deep/poll"),
-                                              os.path.join(src, "deep/processor/trigger_handler.py")))
+                                              os.path.join(src, "deep/processor/trigger_handler.py"),
+                                              os.path.join(src, "deep/api/tracepoint/trigger.py")))
             tracer.install()
         w.start()
         handles = {}
         live_regs = set()
+        # an application thread that keeps running through the probe lines while the configuration changes under it
+        # (its effects are not judged; what it may leave behind in the handler is, by the final probe)
+        prober_stop = {"v": False}
+        prober_t = None
+        if s.get("prober"):
+            handler0 = w.handler
+
+            def bg_probe(i):
+                handler0.trace_call(sys._getframe(1), "line", None)
+            gb = p.load({"probe": bg_probe})
+
+            in_update = {"n": 0}
+            tcs = w.config.tracepoints
+            orig_ul = tcs.update_listeners
+
+            def update_listeners(*a, **kw):
+                in_update["n"] += 1
+                try:
+                    return orig_ul(*a, **kw)
+                finally:
+                    in_update["n"] -= 1
+            tcs.update_listeners = update_listeners
+
+            def prober():
+                # hits arrive exactly while a configuration update is being applied on a worker (and now and then
+                # in between), so that the handler is matching events at the instant its configuration is replaced
+                while not prober_stop["v"]:
+                    k.block_until(lambda: in_update["n"] > 0 or prober_stop["v"], k.now_ns + 370_000_000, why="prober")
+                    if prober_stop["v"]:
+                        break
+                    gb["probe_fn"]()
+                    k.probe("prober_pass_during_update", 1 if in_update["n"] > 0 else 0)
+            prober_t = shims.SimThread(target=prober, name="prober")
+            prober_t.start()
         for o in s["ops"]:
             if o["op"] == "sleep":
                 k.sleep(o["s"])
@@ -185,6 +222,9 @@ def execute(s, ch):
             elif o["op"] == "fault":
                 pending_faults.append(o)
         # ------------------------------------------------ faults stop: three poll intervals, then quiescence
+        prober_stop["v"] = True
+        if prober_t is not None:
+            prober_t.join()
         pending_faults.clear()
         k.stall_p = 0.0
         polls_before = len(svc.polls)
